@@ -76,4 +76,13 @@ CLAIMED["C05"] = {
     "note": TB + "; log2 / trailing-zero specifications of the CPU instructions",
     "technique": "Lean 4 proof (arithmetic on codes) + differential correspondence",
 }
+CLAIMED["C18"] = {
+    "text": "Theorems over ALL bit patterns, with the exponent window and the two biases extracted from src/qty.rs at every run: freq2hash is strictly increasing on "
+            "the accepted interval, lands inside [0, n_cells_max), rejects everything outside (never wraps), hash2freq∘freq2hash = id bit-for-bit (64-bit), weak "
+            "monotonicity on u16/u32; an F-MOC / T-MOC built from values contains exactly the depth-d cells of those values for every order, capacity and width "
+            "(corollary of the C06 builder theorem); widening round trip. Correspondence on every binary exponent and the special values, exchanged as bit patterns.",
+    "design_ref": "DESIGN.md §4 C18, §10",
+    "note": TB + "; IEEE-754 order-embedding of non-negative doubles into their bit patterns",
+    "technique": "Lean 4 proof on bit patterns (constants regenerated from the source) + differential correspondence",
+}
 NOT_YET = {}
